@@ -61,6 +61,7 @@ func vfC17(w *vfWorld) {
 		{ID: "rw", Path: "^/rw/(.*)$", Rewrite: "/new/$1", Host: "up2.sim"},
 		{ID: "rwdeep", Path: "^/rw/deep/(.*)$", Rewrite: "/d/$1", Host: "up3.sim"},
 		{ID: "rwswap", Path: "^/swap/([a-z]+)/([a-z0-9]+)$", Rewrite: "/s/$2/$1", Host: "up4.sim"},
+		{ID: "rwq", Path: "^/art/([a-z0-9.-]+)$", Rewrite: "/article?id=$1&src=rule", Host: "up3.sim"},
 		{ID: "static", Path: "/static-ok", Static: true},
 	}
 	var rules []vfUpRule
@@ -111,15 +112,7 @@ func vfC17(w *vfWorld) {
 	}
 	bulk := t.Fork("c17.bulk")
 	segs := []string{"a", "b1", "v2", "deep", "x.y", "a%2Fb", "%2e", "a%20b", "a+b", "a;b=c", "%C3%A9", "é", "A", "~t", "a,b", "a%3Fb", "a=b", "@", "a%25b", "index.html"}
-	route := func(path string) *vfUpRule {
-		dec, err := url.PathUnescape(path)
-		if err != nil {
-			return nil
-		}
-		match := path
-		if !cs.RawPath {
-			match = dec
-		}
+	routeBy := func(match, dec string) *vfUpRule {
 		var best *vfUpRule
 		for i := range rules {
 			r := &rules[i]
@@ -137,12 +130,32 @@ func vfC17(w *vfWorld) {
 		}
 		return best
 	}
+	// route: the upstream that owns the path; judged=false where the statement does not say which reading of "the
+	// request path" applies: raw-path proxying routes on the percent-encoded path, but a request line that is not a
+	// valid encoding (a raw non-ASCII byte) has no encoded form of its own and Go re-encodes the decoded path
+	route := func(path string) (rule *vfUpRule, judged bool) {
+		dec, err := url.PathUnescape(path)
+		if err != nil {
+			return nil, true
+		}
+		if !cs.RawPath {
+			return routeBy(dec, dec), true
+		}
+		r1, r2 := routeBy(path, dec), routeBy(dec, dec)
+		if r1 != r2 && !vfValidEncodedPath(path) {
+			return nil, false
+		}
+		return r1, true
+	}
 	nreq := 40 + t.Choice("c17.nreq", 40)
 	for i := 0; i < nreq; i++ {
 		// path
-		prefix := vfPick(t, "c17.prefix", []string{"/", "/api/", "/api/v2/", "/apix/", "/based/", "/rw/", "/rw/deep/", "/other/", "/exact", "/swap/", "/static-ok", "/api", "/exactx"})
+		prefix := vfPick(t, "c17.prefix", []string{"/", "/api/", "/api/v2/", "/apix/", "/based/", "/rw/", "/rw/deep/", "/other/", "/exact", "/swap/", "/static-ok", "/api", "/exactx", "/art/",
+			// an encoded slash or letter right at a prefix boundary: which upstream owns the path depends on whether
+			// routing looks at the encoded or the decoded path (raw-path proxying)
+			"/api%2F", "/api%2Fv2/", "/api/v2%2F", "/apix%2F", "/based%2F", "/%61pi/", "/api/%762/", "/exact%2F", "/rw%2F", "/rw/deep%2F"})
 		path := prefix
-		if strings.HasSuffix(prefix, "/") {
+		if strings.HasSuffix(prefix, "/") || strings.HasSuffix(prefix, "%2F") {
 			n := t.Choice("c17.nseg", 4)
 			var ss []string
 			for k := 0; k < n; k++ {
@@ -152,11 +165,14 @@ func vfC17(w *vfWorld) {
 			if prefix == "/swap/" {
 				path = "/swap/" + vfPick(t, "c17.sw1", []string{"ab", "zz", "q"}) + "/" + vfPick(t, "c17.sw2", []string{"x1", "9", "abc"})
 			}
-			if n > 0 && t.Prob("c17.trail", 200) {
+			if prefix == "/art/" {
+				path = "/art/" + vfPick(t, "c17.art", []string{"blog-1", "x", "2024.09", "id", "a-b-c"})
+			}
+			if n > 0 && t.Prob("c17.trail", 200) && prefix != "/art/" {
 				path += "/"
 			}
 		}
-		query := vfPick(t, "c17.query", []string{"", "", "?a=1", "?b=2&a=1", "?a=1&a=2", "?q=a+b%20c", "?x=%2F%3F%26", "?", "?k", "?a=1&&b=", "?z=1&y=2&x=3", "?u=%C3%A9&v=é"})
+		query := vfPick(t, "c17.query", []string{"", "", "?a=1", "?b=2&a=1", "?a=1&a=2", "?q=a+b%20c", "?x=%2F%3F%26", "?", "?k", "?a=1&&b=", "?z=1&y=2&x=3", "?u=%C3%A9&v=é", "?id=mine&lang=en", "?src=client&id=1&id=2"})
 		method := vfPick(t, "c17.method", []string{"GET", "GET", "POST", "PUT", "DELETE", "PATCH", "HEAD", "OPTIONS", "PROPFIND"})
 		req := &vfReq{Method: method, Target: path + query}
 		// headers
@@ -236,7 +252,11 @@ func vfC17(w *vfWorld) {
 			rhdrs = append(rhdrs, [2]string{"Www-Authenticate", "Basic realm=\"up\""}, [2]string{"Etag", "\"v1\""})
 		}
 		reply = &vfUpReply{Status: rstatus, Headers: rhdrs, Body: rbody, Fault: map[string]string{"reset": "reset", "hang": "hang"}[fault]}
-		rule := route(path)
+		rule, judged := route(path)
+		if !judged {
+			w.probe("c17:raw-path-routing-of-invalid-encoding-not-judged")
+			continue
+		}
 		if fault == "refuse" && rule != nil && !rule.Static {
 			w.net.SetRefuse(rule.Host+":80", true)
 		}
@@ -306,9 +326,14 @@ func vfC17(w *vfWorld) {
 		// which is what the proxy does; the alpha-config text about a '/base' prefix is not followed)
 		wantURI := path + query
 		semanticQuery := false
+		var ruleQ string
 		if rule.re != nil {
 			dec, _ := url.PathUnescape(path)
 			np := rule.re.ReplaceAllString(dec, rule.Rewrite)
+			if strings.Contains(rule.Rewrite, "?") {
+				// a rewrite target with a query of its own: its parameters are ADDED to the client's
+				np, ruleQ, _ = strings.Cut(np, "?")
+			}
 			wantURI = (&url.URL{Path: np}).EscapedPath() + query
 			semanticQuery = true
 		}
@@ -318,8 +343,17 @@ func vfC17(w *vfWorld) {
 			wp, wq, _ := strings.Cut(wantURI, "?")
 			gv, _ := url.ParseQuery(gq)
 			wv, _ := url.ParseQuery(wq)
+			rv, _ := url.ParseQuery(ruleQ)
+			for k, vs := range rv {
+				wv[k] = append(wv[k], vs...)
+			}
+			for _, m := range []url.Values{gv, wv} {
+				for _, vs := range m {
+					sort.Strings(vs) // the order of the values of one key is not part of the statement
+				}
+			}
 			if gp != wp || gv.Encode() != wv.Encode() {
-				w.violate("C17", "request-target", "rewrite/"+vfC17PathClass(path), "%s: upstream received request-target %q, the rule %s -> %s says %q", label, gotURI, rule.Path, rule.Rewrite, wantURI)
+				w.violate("C17", "request-target", "rewrite/"+vfC17PathClass(path), "%s: upstream received request-target %q, the rule %s -> %s says path %q with the client's query plus the rule's parameters (%q)", label, gotURI, rule.Path, rule.Rewrite, wp, wv.Encode())
 			}
 		} else if gotURI != wantURI && !(query == "?" && gotURI == strings.TrimSuffix(wantURI, "?")) {
 			w.violate("C17", "request-target", rule.ID+"/"+vfC17PathClass(path), "%s: upstream received request-target %q, want %q unchanged (raw-path proxying %v)", label, gotURI, wantURI, cs.RawPath)
@@ -443,4 +477,19 @@ func vfC17PathClass(p string) string {
 		}
 	}
 	return "plain"
+}
+
+// vfValidEncodedPath: every byte is an unreserved character, a sub-delimiter, ':' '@' '/' '[' ']' or part of a
+// percent escape (RFC 3986 path characters).
+func vfValidEncodedPath(p string) bool {
+	for i := 0; i < len(p); i++ {
+		c := p[i]
+		switch {
+		case c >= 'a' && c <= 'z', c >= 'A' && c <= 'Z', c >= '0' && c <= '9':
+		case strings.IndexByte("-._~!$&'()*+,;=:@/[]%", c) >= 0:
+		default:
+			return false
+		}
+	}
+	return true
 }
